@@ -406,6 +406,12 @@ class Exec:
         for p, a in zip(fn['params'], args):
             fr.regs[p['n']] = a
         st.frames.append(fr)
+        # package initialiser of the entry's package runs first (other packages' init functions are no-ops)
+        initname = entry.rsplit('.', 1)[0] + '.init'
+        if initname in self.funcs and not getattr(self, 'skip_init', False):
+            fi = Frame(self.funcs[initname])
+            fi.ret_to = ('defer', None)
+            st.frames.append(fi)
         work = [st]
         self.results = []
         while work:
@@ -966,6 +972,9 @@ class Exec:
         else:
             raise Unsupported('call kind ' + kind)
         base = name.rsplit('.', 1)[-1]
+        if base == 'init' and kind == 'static':
+            self.deliver(st, fr, ret_to, None)      # initialisers of imported packages: not modelled
+            return
         if base.startswith('verif') and ('intr:' + base) in self.stubs:
             return self.call_stub(st, fr, name, args, ret_to, pos, ins, handler=self.stubs['intr:' + base])
         if name in self.stubs:
@@ -994,6 +1003,8 @@ class Exec:
         if isinstance(out, tuple) and len(out) == 3 and out[0] == 'tailcall':
             # the stub delegates to a repo function (e.g. json.Marshal -> MarshalJSON method)
             return self.invoke_value(st, fr, ('static', out[1]), out[2], ret_to, pos, ins)
+        if isinstance(out, tuple) and len(out) == 3 and out[0] == 'tailcallv':
+            return self.invoke_value(st, fr, ('value', out[1]), out[2], ret_to, pos, ins)
         if isinstance(out, Forks):
             res = []
             for cond, val, mut in out.alts:
